@@ -1370,6 +1370,9 @@ func (c *ErrorConverter) To(obj Object) (interface{}, error) {
 		return obj.Value(), nil
 	case *String:
 		return errors.New(obj.Value()), nil
+	case *NilType:
+		// From turns the nil error into nil: nil is the nil error
+		return nil, nil
 	default:
 		return nil, errz.TypeErrorf("type error: expected a string (%s given)", obj.Type())
 	}
